@@ -166,8 +166,8 @@ class Engine:
             self.split_out.append([[e[0], e[1], e[2]] for e in self.stack[: self.pos]])
             raise Abort("split")
 
-    def decide(self, cond: Any, label: str = "") -> bool:
-        """Branch on a symbolic condition."""
+    def decide(self, cond: Any, label: str = "", prefer: bool | None = None) -> bool:
+        """Branch on a symbolic condition (``prefer``: which feasible side to explore first)."""
         if isinstance(cond, bool):
             return cond
         cond = as_z3_bool(cond)
@@ -193,7 +193,9 @@ class Engine:
             raise Abort("path condition infeasible")
         if len(options) == 2:
             self.stats.forks += 1
-            if self.rng.random() < 0.5:
+            if prefer is not None:
+                options = [prefer, not prefer]
+            elif self.rng.random() < 0.5:
                 options.reverse()
         choice = options[0]
         self.stack.append([label, "bool", choice, options[1:]])
